@@ -20,6 +20,8 @@ import (
 	"errors"
 	"fmt"
 	"log/slog"
+	"strconv"
+	"strings"
 	"sync"
 
 	clientv3 "go.etcd.io/etcd/client/v3"
@@ -48,6 +50,10 @@ type PartitionLeaseConfig struct {
 	LeaseTTLSeconds int
 	// Logger for operational messages.
 	Logger *slog.Logger
+	// OnAcquire, if set, runs each time a partition lease is newly taken,
+	// before the partition is reported as owned. Another broker may have
+	// written to the partition since this broker last owned it.
+	OnAcquire func(ctx context.Context, topic string, partition int32)
 }
 
 // PartitionLeaseManager uses etcd leases to ensure exclusive partition ownership.
@@ -59,6 +65,20 @@ type PartitionLeaseManager struct {
 
 // NewPartitionLeaseManager creates a lease manager backed by the given etcd client.
 func NewPartitionLeaseManager(client *clientv3.Client, cfg PartitionLeaseConfig) *PartitionLeaseManager {
+	var onAcquire func(context.Context, string)
+	if cfg.OnAcquire != nil {
+		onAcquire = func(ctx context.Context, resourceID string) {
+			i := strings.LastIndexByte(resourceID, '/')
+			if i < 0 {
+				return
+			}
+			partition, err := strconv.ParseInt(resourceID[i+1:], 10, 32)
+			if err != nil {
+				return
+			}
+			cfg.OnAcquire(ctx, resourceID[:i], int32(partition))
+		}
+	}
 	return &PartitionLeaseManager{
 		lm: NewLeaseManager(client, LeaseManagerConfig{
 			BrokerID:        cfg.BrokerID,
@@ -66,6 +86,7 @@ func NewPartitionLeaseManager(client *clientv3.Client, cfg PartitionLeaseConfig)
 			LeaseTTLSeconds: cfg.LeaseTTLSeconds,
 			Logger:          cfg.Logger,
 			ResourceKind:    "partition",
+			OnAcquire:       onAcquire,
 		}),
 	}
 }
